@@ -42,6 +42,7 @@ Nema6 == << <<"phA", "phB", "phC">>, <<"phC", "phA", "phB">>, <<"all", "dAB", "p
 \* ---- sessions ---------------------------------------------------------------------------------
 ReqLat == {9360, 31200, 48360}                      \* 6, 20, 31 lattice units
 ReqOneA == {31200}
+ReqTwoA == {9360, 31200}
 BattLat == {[cap |-> 0, init |-> 0, pw |-> 6240],            \* exactly fits the request
             [cap |-> 123600, init |-> 30000, pw |-> 3120],   \* roomy (can take more than requested), power-limited
             [cap |-> 0, init |-> 7000, pw |-> 4680]}
